@@ -468,6 +468,83 @@ func (g *gen) path() {
 	g.emit(Op{K: KClosePathEndPath})
 }
 
+// sameAgain re-establishes state with a value it held before, the way
+// producers do that set "the colour for this shape" before every shape: a
+// register (or selector, or the LOD range) is written with X, then with
+// something else, then with X again, and a path is filled from it. Whoever
+// remembers "what this register already holds" must notice the write in
+// between, whatever form it takes (a flat colour, an indirect one, a
+// gradient put there by a helper, an incrementing write that lands on it).
+func (g *gen) sameAgain() {
+	t := g.t
+	smallPath := func(adj uint8) {
+		g.emit(Op{K: KStartPath, U: adj, F: [6]float32{LoCoord(t), LoCoord(t)}})
+		g.emit(g.drawOp(KAbsLineTo))
+		g.emit(g.drawOp(KAbsLineTo))
+		g.emit(Op{K: KClosePathEndPath})
+	}
+	switch t.Pick(6, 2, 1, 1) {
+	case 0:
+		adj := g.adj()
+		x := Op{K: KSetCReg, U: adj, C: ivg.RGBAColor(genRGBA(t, t.Pick(3, 1, 1, 1, 2)))}
+		variant := t.Pick(2, 2, 3, 1)
+		home := g.sel()
+		if variant == 3 && !g.cfg.Abstract {
+			g.emit(Op{K: KSetCSel, U: home}) // a known selector to come back to
+		}
+		g.emit(x)
+		if t.Bool() {
+			smallPath(adj)
+		}
+		switch variant {
+		case 0:
+			g.emit(Op{K: KSetCReg, U: adj, C: ivg.RGBAColor(genRGBA(t, t.Pick(3, 1, 1, 1, 2)))})
+		case 1:
+			g.emit(Op{K: KSetCReg, U: adj, C: []ivg.Color{ivg.PaletteIndexColor(wideIndex(t)), ivg.CRegColor(wideIndex(t)), ivg.BlendColor(uint8(t.Intn(256)), uint8(t.Intn(256)), uint8(t.Intn(256)))}[t.Intn(3)]})
+		case 2:
+			if g.cfg.Abstract && adj == 0 {
+				x1, y1 := LoCoord(t), LoCoord(t)
+				g.emit(Op{K: KGradLinear, F: [6]float32{x1, y1, x1 + g.nonzero(), y1 + g.nonzero()}, Spread: uint8(t.Intn(4)), Stops: g.stops()})
+			} else {
+				g.emit(Op{K: KSetCReg, U: adj, C: ivg.RGBAColor(ivg.EncodeGradient(uint8(t.Intn(64)), uint8(t.Intn(64)), uint8(t.Intn(2)), uint8(t.Intn(4)), uint8(t.Intn(3))))})
+			}
+		default:
+			// an incrementing write lands on the register when adj is 0
+			g.emit(Op{K: KSetCReg, Incr: true, C: ivg.RGBAColor(genRGBA(t, 0))})
+			if !g.cfg.Abstract {
+				g.emit(Op{K: KSetCSel, U: home})
+			} else if adj == 0 {
+				g.emit(Op{K: KReadBackC, U: 63}) // step the selector back onto it
+			}
+		}
+		if t.Bool() {
+			smallPath(adj)
+		}
+		g.emit(x)
+		smallPath(adj)
+	case 1:
+		adj := g.adj()
+		x := Op{K: KSetNReg, U: adj, F: [6]float32{NRegVal(t)}}
+		g.emit(x)
+		g.emit(Op{K: KSetNReg, U: adj, F: [6]float32{NRegVal(t)}})
+		g.emit(x)
+	case 2:
+		a, b := g.sel(), g.sel()
+		k := []Kind{KSetCSel, KSetNSel}[t.Intn(2)]
+		g.emit(Op{K: k, U: a})
+		g.emit(Op{K: k, U: b})
+		g.emit(Op{K: k, U: a})
+		smallPath(g.adj())
+	default:
+		x := Op{K: KSetLOD, F: [6]float32{LODVal(t, false), LODVal(t, true)}}
+		g.emit(x)
+		smallPath(g.adj())
+		g.emit(Op{K: KSetLOD, F: [6]float32{LODVal(t, false), LODVal(t, true)}})
+		g.emit(x)
+		smallPath(g.adj())
+	}
+}
+
 // manualGradient writes a gradient the way a hand-written producer does:
 // selectors, six matrix registers, incrementing stop writes, the gradient
 // colour, and a path filled with it.
@@ -832,7 +909,11 @@ func GenProgram(t *tape.Tape, cfg GenCfg) []Op {
 		if cfg.Abstract {
 			wWrap = 1 + g.wHelper/2
 		}
-		switch t.Pick(g.wSel+g.wCReg+g.wNReg, g.wPath, g.wGrad, g.wHelper, wDirty, wUnset, wWrap) {
+		wAgain := 0
+		if !cfg.OffLattice {
+			wAgain = 1 + (g.wCReg+g.wPath)/6
+		}
+		switch t.Pick(g.wSel+g.wCReg+g.wNReg, g.wPath, g.wGrad, g.wHelper, wDirty, wUnset, wWrap, wAgain) {
 		case 0:
 			g.styling()
 		case 1:
@@ -848,6 +929,8 @@ func GenProgram(t *tape.Tape, cfg GenCfg) []Op {
 			g.readUnset()
 		case 6:
 			g.selWrapThenHelper()
+		case 7:
+			g.sameAgain()
 		}
 	}
 	if cfg.Dirty && t.Chance(1, 2) {
